@@ -536,7 +536,7 @@ def run_tie_statements(rp, tier, rng, items):
            and printable_str(it["sql"]) and len(it["sql"]) < 3000:
             seen.add(it["sql"]); texts.append((it["id"], it["sql"]))
     rng.shuffle(texts)
-    texts = texts[:900 if tier == "quick" else 9000]
+    texts = texts[:700 if tier == "quick" else 9000]
     outs = vh_lines("c06stmt", [], [{"id": i, "sql": s} for i, s in texts])
     cases, unmod, oracle_bad = [], 0, []
     for (cid, sql), o in zip(texts, outs):
@@ -588,8 +588,8 @@ def tie_expressions(rng, tier, items):
     def add(cid, text):
         if text not in seen and printable_str(text):
             seen.add(text); out.append((cid, text))
-    for it in items:
-        if "e" in it:
+    for k, it in enumerate(items):
+        if "e" in it and (tier != "quick" or it["src"] != "pair" or k % 2 == 0 or it["id"].startswith("neg")):
             add(it["id"], G.text_of(G.Renderer({}).render(0, it["e"])))
     n = 300 if tier == "quick" else 4000
     for i in range(n):
@@ -636,7 +636,7 @@ def run_tie_printer(rp, tier, rng, items):
         cid, sql, o, g = c
         toks = "[" + "; ".join(G.coq_tok(t["ty"], t["lit"], t["n"]) for t in o["tokens"]) + "]"
         return "(%s, %s, %s)" % (g, G.coq_sx(o["tree"]), toks)
-    res = coq_eval_shards("c06_print", cases, mk, "print_case " + PF_TREE, shard=250, decl_type="list (gexpr * sx * list token)")
+    res = coq_eval_shards("c06_print", cases, mk, "print_case " + PF_TREE, shard=200, decl_type="list (gexpr * sx * list token)")
     bad = [(c, r) for c, r in zip(cases, res) if r in (1, 3)]
     rp.cov["tie_printer_cases"] = len(cases)
     rp.cov["tie_printer_agree"] = sum(1 for r in res if r == 0)
@@ -673,7 +673,11 @@ def run_tie_codecs(rp, tier, rng):
         k = rng.randrange(0, 12)
         contents.append([rng.choice(special) if rng.random() < 0.5 else rng.randrange(0, 128) for _ in range(k)])
     words = reserved_candidates()
-    idents = [list(w.lower().encode()) for w in words] + [list(w.encode()) for w in words] + [list(w.capitalize().encode()) for w in words]
+    idents = [list(w.lower().encode()) for w in words]
+    if tier == "quick":      # the other spellings: a rotating third per run of the quick tier, all in thorough
+        idents += [list((w if i % 2 else w.capitalize()).encode()) for i, w in enumerate(words) if i % 3 == common.seed() % 3]
+    else:
+        idents += [list(w.encode()) for w in words] + [list(w.capitalize().encode()) for w in words]
     idents += [[b] for b in range(1, 128)] + [[97, b, 98] for b in range(1, 128)] + [[b, 97] for b in range(48, 58)]
     for _ in range(n // 2):
         k = rng.randrange(1, 10)
@@ -700,10 +704,10 @@ def run_tie_codecs(rp, tier, rng):
             oracle_bad.append(("identifier", c, idn))
     def mk_l(c):
         return "(%s, %s, %s)" % (L(c[0]), L(c[1]), "None" if c[2] is None else "(Some %s)" % L(c[2]))
-    r1 = coq_eval_shards("c06_lit", lit_cases, mk_l, "fun c => if lit_case %s c then 0%%N else 1%%N" % CF_TREE, shard=400,
+    r1 = coq_eval_shards("c06_lit", lit_cases, mk_l, "fun c => if lit_case %s c then 0%%N else 1%%N" % CF_TREE, shard=120,
                          decl_type="list (list nat * list nat * option (list nat))")
     r2 = coq_eval_shards("c06_ident", id_cases, lambda c: "(%s, %s)" % (L(c[0]), L(c[1])),
-                         "fun c => if ident_case %s c then 0%%N else 1%%N" % PF_TREE, shard=400, decl_type="list (list nat * list nat)")
+                         "fun c => if ident_case %s c then 0%%N else 1%%N" % PF_TREE, shard=150, decl_type="list (list nat * list nat)")
     bad = [("literal", c) for c, r in zip(lit_cases, r1) if r] + [("identifier", c) for c, r in zip(id_cases, r2) if r]
     rp.cov["tie_codec_literal_cases"] = len(lit_cases)
     rp.cov["tie_codec_identifier_cases"] = len(id_cases)
@@ -803,7 +807,9 @@ THEOREMS = ["Props.C06.C06_print_is_render", "Props.C06.C06_print_parse_expr", "
             "Props.C06.C06_format_idempotent", "Props.C06.C06_literal_roundtrip", "Props.C06.C06_ident_roundtrip",
             "Props.C06.C06_refuted_no_parens", "Props.C06.C06_refuted_is_not_null_lost", "Props.C06.C06_refuted_reserved_raw",
             "Props.C06.C06_refuted_dot_safe", "Props.C06.C06_refuted_digit_safe", "Props.C06.C06_refuted_ctrlz_escape", "Props.C06.C06_refuted_triple_quote",
-            "Props.C06.C06_refuted_drop_nul"]
+            "Props.C06.C06_refuted_drop_nul",
+            "Props.C06.C06_print_select_is_render", "Props.C06.C06_print_parse_select_partial",
+            "Props.C06.C06_print_stmt_is_render", "Props.C06.C06_print_parse_stmt_partial"]
 
 
 def run(tier):
@@ -813,9 +819,9 @@ def run(tier):
     try:
         with common.Lock():
             common.stage_harness()
-            ok_inst, ok_props, _, logs = common.coq_stage(rp, ["theories/Proofs/ExprPrintP.vo"], "theories/Props/C06.v", THEOREMS)
+            ok_inst, ok_props, _, logs = common.coq_stage(rp, ["theories/Proofs/ExprPrintP.vo", "theories/Proofs/StmtPrintP.vo"], "theories/Props/C06.v", THEOREMS)
             if not ok_inst:
-                ok_make, log_make = common.coq_make(["theories/Model/ExprPrint.vo"])
+                ok_make, log_make = common.coq_make(["theories/Model/ExprPrint.vo", "theories/Model/StmtPrint.vo"])
                 if not ok_make:
                     raise common.StageError("coq-model", log_make[-2000:])
     except common.StageError as e:
@@ -826,12 +832,15 @@ def run(tier):
     rp.assumptions = ["lexing (text -> tokens) is C04's theorem; per run the Go SQL() text is tokenized with the real tokenizer + converter and compared with the printer model's token list",
                       "theorems cover the expression sub-surface `proved` of C03 with printable names (Props/C06.v); function calls, CASE, tuples, sub-queries, every statement printer and the Format / CLI layouts are covered by the oracle and the printer correspondence only",
                       "byte-level codec models (string literal, quoted identifier) are ASCII: the real reader also normalises typographic quotes; names are compared byte-wise, unicode.IsLetter is taken as true for bytes >= 128"]
+    import time as _t
+    def phase(name, t0): rp.cov.setdefault("phase_seconds", {})[name] = round(_t.time() - t0, 1)
+    phase("coq_stage", rp.t0)
     try:
-        items, new_groups, known_groups = run_oracle(rp, tier, rng, kf)
-        pcases, pbad, poracle = run_tie_printer(rp, tier, rng, items)
-        cbad, coracle = run_tie_codecs(rp, tier, rng)
-        scases, sbad, soracle = run_tie_statements(rp, tier, rng, items)
-        run_known(rp, kf)
+        t = _t.time(); items, new_groups, known_groups = run_oracle(rp, tier, rng, kf); phase("oracle", t)
+        t = _t.time(); pcases, pbad, poracle = run_tie_printer(rp, tier, rng, items); phase("tie_printer", t)
+        t = _t.time(); cbad, coracle = run_tie_codecs(rp, tier, rng); phase("tie_codecs", t)
+        t = _t.time(); scases, sbad, soracle = run_tie_statements(rp, tier, rng, items); phase("tie_statements", t)
+        t = _t.time(); run_known(rp, kf); phase("known_witnesses", t)
     except common.StageError as e:
         return common.stage_fail(rp, e)
     rp.obligation("oracle: every serialiser x configuration output is accepted, re-parses to the same tree, is a fixpoint of the serialiser and agrees with SQL() on tokens",
